@@ -734,7 +734,8 @@ def explore(fn, *, prefix=None, cut_depth=None, budget_s=None, max_violation_key
         except z3.Z3Exception as u:
             res.inconclusive.append(("z3: " + str(u), {}))
         except Exception as e:  # noqa
-            if "/repo/" in _innermost_file(e) or "/site-packages/" in _innermost_file(e):
+            _f = _innermost_file(e)
+            if ("/mitmproxy/" in _f or "/site-packages/" in _f or "/repo/" in _f) and "/verif/" not in _f:
                 vals = _model_values(st)
                 key = f"crash:{type(e).__name__}"
                 rec = {"key": key, "msg": "".join(traceback.format_exception_only(type(e), e)).strip()[:300],
